@@ -485,6 +485,9 @@ func (in *Interp) exec(fr *Frame, ins ssa.Instruction) {
 		if _, ok := m.m[ks]; !ok {
 			m.keys = append(m.keys, ks)
 		}
+		if in.logOn {
+			in.mapWrites = append(in.mapWrites, m)
+		}
 		m.m[ks] = in.get(fr, x.Value)
 		m.kv[ks] = key
 	case *ssa.Lookup:
@@ -566,6 +569,18 @@ func (in *Interp) mapKey(v Value) string {
 			return "i:nil"
 		}
 		return "i:" + k.typ.String() + ":" + in.mapKey(k.val)
+	case *StructV:
+		s := "{"
+		for _, f := range k.fields {
+			s += in.mapKey(f) + ";"
+		}
+		return s + "}"
+	case *ArrayV:
+		s := "["
+		for _, f := range k.elems {
+			s += in.mapKey(f) + ";"
+		}
+		return s + "]"
 	}
 	panic(unsupported{fmt.Sprintf("map key %T", v)})
 }
@@ -866,6 +881,23 @@ func (in *Interp) binop(op token.Token, a, b Value, xt types.Type, at ssa.Instru
 			}
 			return ts.IntOp(pre+"rem", x, y)
 		case token.AND:
+			if x.sort == SInt {
+				// ints=math: x & (2^k-1) is x mod 2^k (Euclidean, which is what two's complement gives)
+				m, v := y, x
+				if x.IsConst() {
+					m, v = x, y
+				}
+				if m.IsConst() && m.i.Sign() >= 0 {
+					p1 := new(big.Int).Add(m.i, big.NewInt(1))
+					if new(big.Int).And(p1, m.i).Sign() == 0 {
+						if v.IsConst() {
+							return ts.IntConst(SInt, new(big.Int).And(v.i, m.i))
+						}
+						return ts.mk("emod", SInt, v, ts.IntConst(SInt, p1))
+					}
+				}
+				panic(unsupported{"bitwise and in ints=math mode (mask is not 2^k-1)"})
+			}
 			return ts.IntOp("band", x, y)
 		case token.OR:
 			return ts.IntOp("bor", x, y)
